@@ -3,7 +3,7 @@ import ScrapliModel.Close.Model
 The hand-written invariant `Sys.inv` of the shutdown skeleton is inductive, and it implies the
 per-state obligations of C07. Proofs are symbolic (case split on the program counter of the process
 that moves, then `simp`), so their cost does not depend on the size of the state space
-(139 484 reachable states).
+(332 032 reachable states).
 -/
 namespace Scrapli.Close.Sys
 open Scrapli.Close
@@ -24,43 +24,43 @@ macro "close_step" : tactic => `(tactic| (
   all_goals simp_all))
 
 theorem inv_init (s : St) (h : isInit s = true) : inv s = true := by
-  obtain ⟨nc, mode, twice, r, k, second, o, oSecond, n, w, feed, left, closedFlag, doneClosed, exited,
-    rlDone, ncDoneClosed, closeCalls, panic⟩ := s
+  obtain ⟨nc, mode, twice, closeErr, r, k, second, o, oSecond, n, w, feed, left, closedFlag, doneClosed, exited,
+    rlDone, ncDoneClosed, closeCalls, lastErr, panic⟩ := s
   cases nc <;> simp [isInit] at h <;> simp [inv, wf, kPastEntry, kPastSignal, kPastNcDone, h]
 
 theorem inv_stepR (s s' : St) (h : inv s = true) (hs : s' ∈ stepR s) : inv s' = true := by
-  obtain ⟨nc, mode, twice, r, k, second, o, oSecond, n, w, feed, left, closedFlag, doneClosed, exited,
-    rlDone, ncDoneClosed, closeCalls, panic⟩ := s
+  obtain ⟨nc, mode, twice, closeErr, r, k, second, o, oSecond, n, w, feed, left, closedFlag, doneClosed, exited,
+    rlDone, ncDoneClosed, closeCalls, lastErr, panic⟩ := s
   cases r <;> simp [stepR, inv, wf, implClosed] at h hs ⊢
   all_goals close_step
 
 theorem inv_stepK (s s' : St) (h : inv s = true) (hs : s' ∈ stepK s) : inv s' = true := by
-  obtain ⟨nc, mode, twice, r, k, second, o, oSecond, n, w, feed, left, closedFlag, doneClosed, exited,
-    rlDone, ncDoneClosed, closeCalls, panic⟩ := s
+  obtain ⟨nc, mode, twice, closeErr, r, k, second, o, oSecond, n, w, feed, left, closedFlag, doneClosed, exited,
+    rlDone, ncDoneClosed, closeCalls, lastErr, panic⟩ := s
   cases k <;> simp [stepK, inv, wf, kPastEntry, kPastSignal, kPastNcDone] at h hs ⊢
   all_goals close_step
 
 theorem inv_stepO (s s' : St) (h : inv s = true) (hs : s' ∈ stepO s) : inv s' = true := by
-  obtain ⟨nc, mode, twice, r, k, second, o, oSecond, n, w, feed, left, closedFlag, doneClosed, exited,
-    rlDone, ncDoneClosed, closeCalls, panic⟩ := s
+  obtain ⟨nc, mode, twice, closeErr, r, k, second, o, oSecond, n, w, feed, left, closedFlag, doneClosed, exited,
+    rlDone, ncDoneClosed, closeCalls, lastErr, panic⟩ := s
   cases o <;> simp [stepO, inv, wf] at h hs ⊢
   all_goals close_step
 
 theorem inv_stepN (s s' : St) (h : inv s = true) (hs : s' ∈ stepN s) : inv s' = true := by
-  obtain ⟨nc, mode, twice, r, k, second, o, oSecond, n, w, feed, left, closedFlag, doneClosed, exited,
-    rlDone, ncDoneClosed, closeCalls, panic⟩ := s
+  obtain ⟨nc, mode, twice, closeErr, r, k, second, o, oSecond, n, w, feed, left, closedFlag, doneClosed, exited,
+    rlDone, ncDoneClosed, closeCalls, lastErr, panic⟩ := s
   cases n <;> simp [stepN, inv, wf] at h hs ⊢
   all_goals close_step
 
 theorem inv_stepW (s s' : St) (h : inv s = true) (hs : s' ∈ stepW s) : inv s' = true := by
-  obtain ⟨nc, mode, twice, r, k, second, o, oSecond, n, w, feed, left, closedFlag, doneClosed, exited,
-    rlDone, ncDoneClosed, closeCalls, panic⟩ := s
+  obtain ⟨nc, mode, twice, closeErr, r, k, second, o, oSecond, n, w, feed, left, closedFlag, doneClosed, exited,
+    rlDone, ncDoneClosed, closeCalls, lastErr, panic⟩ := s
   cases w <;> simp [stepW, inv, wf, implClosed] at h hs ⊢
   all_goals close_step
 
 theorem inv_stepE (s s' : St) (h : inv s = true) (hs : s' ∈ stepE s) : inv s' = true := by
-  obtain ⟨nc, mode, twice, r, k, second, o, oSecond, n, w, feed, left, closedFlag, doneClosed, exited,
-    rlDone, ncDoneClosed, closeCalls, panic⟩ := s
+  obtain ⟨nc, mode, twice, closeErr, r, k, second, o, oSecond, n, w, feed, left, closedFlag, doneClosed, exited,
+    rlDone, ncDoneClosed, closeCalls, lastErr, panic⟩ := s
   simp [stepE, inv, wf] at h hs ⊢
   obtain ⟨_, hs⟩ := hs
   rcases hs with hs | hs | hs <;> close_step
@@ -106,10 +106,11 @@ structure InvP (s : St) : Prop where
   exited : s.exited = decide (s.r = .dead)
   rlDone : s.rlDone = decide (s.r = .dead)
   ncDoneClosed : s.ncDoneClosed = (s.nc && (s.second || kPastNcDone s.k))
-  closeCalls : s.closeCalls = (if s.second || decide (s.k = .ret) then 1 else 0)
+  closeCalls : s.closeCalls = (if s.second || decide (s.k = .ret) || decide (s.k = .chanRet) then 1 else 0)
   panic : s.panic = .none
-  second : s.second = true → s.k = .ncDone ∨ s.k = .ncChan ∨ s.k = .entry ∨ s.k = .ret
+  second : s.second = true → s.k = .ncDone ∨ s.k = .ncChan ∨ s.k = .entry ∨ s.k = .chanRet ∨ s.k = .ret
   nice : s.k = .nice ∨ s.k = .niceLk → s.r = .dead
+  lastErr : s.k = .chanRet ∨ s.k = .ret → s.lastErr = (s.closeErr && !s.second)
   rParked : s.r = .parked → s.doneClosed = false
   nParked : s.n = .parked → s.ncDoneClosed = false
   procs : if s.nc = true then s.o = .absent ∧ s.n ≠ .absent
@@ -117,10 +118,11 @@ structure InvP (s : St) : Prop where
 
 theorem inv_invP (s : St) (h : inv s = true) : InvP s := by
   simp only [inv, wf, Bool.and_eq_true, decide_eq_true_eq] at h
-  obtain ⟨⟨⟨⟨⟨⟨⟨⟨⟨⟨⟨h1, h2⟩, h3⟩, h4⟩, h5⟩, h6⟩, h7⟩, h8⟩, h9⟩, h11⟩, h12⟩, h10⟩ := h
-  refine ⟨h1.symm, h2.symm, h3.symm, h4.symm, h5.symm, h6.symm, h7, ?_, ?_, ?_, ?_, ?_⟩
-  · intro hs; simp [hs] at h8; rcases h8 with ((h | h) | h) | h <;> simp [h]
+  obtain ⟨⟨⟨⟨⟨⟨⟨⟨⟨⟨⟨⟨h1, h2⟩, h3⟩, h4⟩, h5⟩, h6⟩, h7⟩, h8⟩, h9⟩, h13⟩, h11⟩, h12⟩, h10⟩ := h
+  refine ⟨h1.symm, h2.symm, h3.symm, h4.symm, h5.symm, h6.symm, h7, ?_, ?_, ?_, ?_, ?_, ?_⟩
+  · intro hs; simp [hs] at h8; rcases h8 with (((h | h) | h) | h) | h <;> simp [h]
   · intro hk; rcases hk with hk | hk <;> simp [hk] at h9 <;> exact h9
+  · intro hk; rcases hk with hk | hk <;> simpa [hk] using h13
   · intro hr; simpa [hr] using h11
   · intro hn; simpa [hn] using h12
   · cases hn : s.nc <;> simp [hn] at h10 ⊢ <;> simp [h10]
@@ -215,43 +217,43 @@ macro "close_rank" : tactic => `(tactic| (
 
 theorem rank_stepR (s s' : St) (h : inv s = true) (hd : s.doneClosed = true) (hs : s' ∈ stepR s) :
     rank s' < rank s := by
-  obtain ⟨nc, mode, twice, r, k, second, o, oSecond, n, w, feed, left, closedFlag, doneClosed, exited,
-    rlDone, ncDoneClosed, closeCalls, panic⟩ := s
+  obtain ⟨nc, mode, twice, closeErr, r, k, second, o, oSecond, n, w, feed, left, closedFlag, doneClosed, exited,
+    rlDone, ncDoneClosed, closeCalls, lastErr, panic⟩ := s
   cases r <;> simp [stepR, inv, wf, implClosed] at h hs hd ⊢
   all_goals close_rank
 
 theorem rank_stepK (s s' : St) (h : inv s = true) (hd : s.doneClosed = true) (hs : s' ∈ stepK s) :
     rank s' < rank s := by
-  obtain ⟨nc, mode, twice, r, k, second, o, oSecond, n, w, feed, left, closedFlag, doneClosed, exited,
-    rlDone, ncDoneClosed, closeCalls, panic⟩ := s
+  obtain ⟨nc, mode, twice, closeErr, r, k, second, o, oSecond, n, w, feed, left, closedFlag, doneClosed, exited,
+    rlDone, ncDoneClosed, closeCalls, lastErr, panic⟩ := s
   cases k <;> simp [stepK, inv, wf, kPastEntry, kPastSignal, kPastNcDone] at h hs hd ⊢
   all_goals close_rank
 
 theorem rank_stepO (s s' : St) (h : inv s = true) (hd : s.doneClosed = true) (hs : s' ∈ stepO s) :
     rank s' < rank s := by
-  obtain ⟨nc, mode, twice, r, k, second, o, oSecond, n, w, feed, left, closedFlag, doneClosed, exited,
-    rlDone, ncDoneClosed, closeCalls, panic⟩ := s
+  obtain ⟨nc, mode, twice, closeErr, r, k, second, o, oSecond, n, w, feed, left, closedFlag, doneClosed, exited,
+    rlDone, ncDoneClosed, closeCalls, lastErr, panic⟩ := s
   cases o <;> simp [stepO, inv, wf] at h hs hd ⊢
   all_goals close_rank
 
 theorem rank_stepN (s s' : St) (h : inv s = true) (hd : s.doneClosed = true) (hs : s' ∈ stepN s) :
     rank s' < rank s := by
-  obtain ⟨nc, mode, twice, r, k, second, o, oSecond, n, w, feed, left, closedFlag, doneClosed, exited,
-    rlDone, ncDoneClosed, closeCalls, panic⟩ := s
+  obtain ⟨nc, mode, twice, closeErr, r, k, second, o, oSecond, n, w, feed, left, closedFlag, doneClosed, exited,
+    rlDone, ncDoneClosed, closeCalls, lastErr, panic⟩ := s
   cases n <;> simp [stepN, inv, wf] at h hs hd ⊢
   all_goals close_rank
 
 theorem rank_stepW (s s' : St) (h : inv s = true) (hd : s.doneClosed = true) (hs : s' ∈ stepW s) :
     rank s' < rank s := by
-  obtain ⟨nc, mode, twice, r, k, second, o, oSecond, n, w, feed, left, closedFlag, doneClosed, exited,
-    rlDone, ncDoneClosed, closeCalls, panic⟩ := s
+  obtain ⟨nc, mode, twice, closeErr, r, k, second, o, oSecond, n, w, feed, left, closedFlag, doneClosed, exited,
+    rlDone, ncDoneClosed, closeCalls, lastErr, panic⟩ := s
   cases w <;> simp [stepW, inv, wf, implClosed] at h hs hd ⊢
   all_goals close_rank
 
 theorem rank_stepE (s s' : St) (h : inv s = true) (hd : s.doneClosed = true) (hs : s' ∈ stepE s) :
     rank s' < rank s := by
-  obtain ⟨nc, mode, twice, r, k, second, o, oSecond, n, w, feed, left, closedFlag, doneClosed, exited,
-    rlDone, ncDoneClosed, closeCalls, panic⟩ := s
+  obtain ⟨nc, mode, twice, closeErr, r, k, second, o, oSecond, n, w, feed, left, closedFlag, doneClosed, exited,
+    rlDone, ncDoneClosed, closeCalls, lastErr, panic⟩ := s
   simp [stepE] at hs
   obtain ⟨⟨hl, _⟩, hs⟩ := hs
   cases left <;> simp at hl <;> rcases hs with hs | hs | hs <;> subst hs <;>
